@@ -90,7 +90,10 @@ def main():
         obligations.append({"name": "judge executable builds", "kind": "correspondence", "ok": False, "detail": build_txt[-2000:]})
     for st in (streams if judge_ok else []):
         cfg, lines, kind = st["cfg"], st["lines"], st.get("kind", "judge")
-        res = correspond(cfg, lines, log)
+        hargs = ["--threads", "4"] if kind == "threads" else []
+        res = correspond(cfg, lines, log, harness_args=hargs, selfcheck=(kind == "selfcheck"))
+        if kind == "threads" and res.get("crash") and "THREADS-DIFFER" in res["crash"]:
+            res["fails"].append((res["crash"], "<see stderr>", "FAIL concurrent execution produced a result different from the sequential one"))
         per_cfg.append({"cfg": cfg, "kind": kind, "ops": res["n"], "ok": res["ok"], "skipped": res["skipped"], "fail": len(res["fails"])})
         total += res["n"]
         for l in lines[:res["n"]]:
